@@ -224,8 +224,18 @@ func (m *Manager) registerConnection(conn *Connection) {
 func (m *Manager) handleDisconnect(conn *Connection, err error) {
 	m.mu.Lock()
 	// Remove from peers map if this is still the active connection
-	if existing, ok := m.peers[conn.RemoteID]; ok && existing == conn {
+	existing, ok := m.peers[conn.RemoteID]
+	if ok && existing == conn {
 		delete(m.peers, conn.RemoteID)
+	} else if ok {
+		// Another connection to the same peer has been registered meanwhile
+		// (fast reconnect between the keepalive loop's and the read loop's
+		// teardown of the old one, or after Disconnect/DisconnectAll). This
+		// teardown is stale: the disconnect callback cleans up routes and
+		// relays by peer ID and would destroy the state of the live
+		// connection, and there is nothing to reconnect.
+		m.mu.Unlock()
+		return
 	}
 
 	// Find the peer info using the config address (original dial address).
